@@ -34,8 +34,9 @@ EPS = [(100.0, 5), (9.0, 4)]  # evolution points of the stand-in EKO; the second
 class XG:
     """x grid stand-in: only len() and .raw are read by ekobox.apply"""
 
-    def __init__(self, raw):
+    def __init__(self, raw, log=True):
         self.raw = raw
+        self.log = log
 
     def __len__(self):
         return len(self.raw)
@@ -53,12 +54,18 @@ class _NS:
 
 
 class FakeEKO:
-    def __init__(self, xgrid, ops, mu20=None, qed=0, degree=1):
+    """exposes what ekobox.apply may legitimately read; every way of reading the initial scale is consistent:
+    mu20 == operator_card.mu20 == metadata.origin[0] == operator_card.init[0]**2 (mu0 symbolic, so mu0 != mu0^2 in general)"""
+
+    def __init__(self, xgrid, ops, mu0=None, qed=0, degree=1):
         self.xgrid = xgrid
         self._ops = ops
-        self.mu20 = mu20
+        mu0 = 2.0 if mu0 is None else mu0
+        self.mu20 = mu0 * mu0
         self.theory_card = _NS(order=(1, qed))
-        self.operator_card = _NS(configs=_NS(interpolation_polynomial_degree=degree))
+        self.operator_card = _NS(configs=_NS(interpolation_polynomial_degree=degree, interpolation_is_log=getattr(xgrid, "log", True)),
+                                 init=(mu0, 4), mu20=self.mu20, xgrid=xgrid)
+        self.metadata = _NS(origin=(self.mu20, 4), xgrid=xgrid)
         self.loaded = 0
 
     def items(self):
@@ -67,31 +74,63 @@ class FakeEKO:
 
 
 class FakeDispatcher:
-    """Recorder standing in for eko.interpolation.InterpolatorDispatcher: contract = get_interpolation(target)
-    returns the matrix X with f(target_j) = sum_k X[j,k] f(x_k) (exactness of X itself is property C34)."""
+    """Stand-in for eko.interpolation.InterpolatorDispatcher. Contract: get_interpolation(target) returns the matrix X with
+    f(target_j) = sum_k X[j,k] f(x_k) *for the settings the dispatcher was built with* (exactness of X itself is C34).
+    The stand-in is content-addressed: a symbolic matrix is registered per (x nodes, log flag, polynomial degree, target
+    nodes); asking for settings that were not registered yields a fresh unrelated symbolic matrix, so using the wrong
+    grid / degree / target - or a matrix left over from other settings - shows up in the value obligations."""
 
-    calls = []
-    X = None
+    table = {}
+    junk = 0
 
-    def __init__(self, *a, **kw):
-        FakeDispatcher.calls.append(("init", a, kw))
+    def __init__(self, xgrid=None, polynomial_degree=None, mode_N=True):
+        self.xgrid = xgrid
+        self.degree = polynomial_degree
+
+    @staticmethod
+    def key(xgrid, degree, target):
+        try:
+            return (tuple(id(x) for x in xgrid.raw), bool(getattr(xgrid, "log", True)), int(degree), tuple(id(t) for t in target))
+        except Exception:  # noqa
+            return None
+
+    @classmethod
+    def register(cls, eko, target, X):
+        cls.table[cls.key(eko.xgrid, eko.operator_card.configs.interpolation_polynomial_degree, target)] = X
+
+    @classmethod
+    def reset(cls):
+        cls.table = {}
+        cls.junk = 0
 
     def get_interpolation(self, targetgrid):
-        FakeDispatcher.calls.append(("get", targetgrid))
-        return FakeDispatcher.X
+        k = FakeDispatcher.key(self.xgrid, self.degree, targetgrid)
+        X = FakeDispatcher.table.get(k) if k is not None else None
+        if X is None:
+            FakeDispatcher.junk += 1
+            try:
+                shape = (len(targetgrid), len(self.xgrid))
+            except Exception:  # noqa
+                shape = (1, 1)
+            X = symarr("J%d" % FakeDispatcher.junk, shape)
+        return X
 
 
-def _mk_eko(n, qed=0, with_mu=False):
+def _mk_eko(n, qed=0, with_mu=False, xs=None, tag="", log=True, degree=1):
     ops = {}
     for i, ep in enumerate(EPS):
-        O = symarr("O%d" % i, (NF, n, NF, n))
-        E = symarr("E%d" % i, (NF, n, NF, n)) if i == 0 else None
+        O = symarr("O%s%d" % (tag, i), (NF, n, NF, n))
+        E = symarr("E%s%d" % (tag, i), (NF, n, NF, n)) if i == 0 else None
         ops[ep] = Elem(O, E)
-    xs = [SR.var("x%d" % k) for k in range(n)]
-    for k, x in enumerate(xs):
-        assume(x, ">0")
-    mu20 = SR.var("mu20") if with_mu else 2.0
-    return FakeEKO(XG(xs), ops, mu20=mu20, qed=qed), xs
+    if xs is None:
+        xs = [SR.var("x%d" % k) for k in range(n)]
+        for k, x in enumerate(xs):
+            assume(x, ">0")
+    mu0 = None
+    if with_mu:
+        mu0 = SR.var("mu0")
+        assume(mu0, ">0")
+    return FakeEKO(XG(xs, log=log), ops, mu0=mu0, qed=qed, degree=degree), xs
 
 
 def _contract(O, f, n):
@@ -176,10 +215,11 @@ def case_rotate_result(log, n, m, rot, reps=1):
         grids = {ep: symarr("g%d" % i, (reps, NF, n)) for i, ep in enumerate(EPS)}
         M = symarr("R", (NF, NF)) if rot == "sym" else None
         X = symarr("X", (m, n)) if m else None
-        FakeDispatcher.calls = []
-        FakeDispatcher.X = X
-        apply.interpolation = _NS(InterpolatorDispatcher=FakeDispatcher)
         target = [SR.var("t%d" % j) for j in range(m)] if m else None
+        FakeDispatcher.reset()
+        if m:
+            FakeDispatcher.register(eko, target, X)
+        apply.interpolation = _NS(InterpolatorDispatcher=FakeDispatcher)
         labels = list(br.evol_basis_pids) if rot else list(br.flavor_basis_pids)
         before = {ep: g.copy() for ep, g in grids.items()}
         out = apply.rotate_result(eko, grids, labels, target, M)
@@ -198,11 +238,8 @@ def case_rotate_result(log, n, m, rot, reps=1):
                         diffs.append(SR(QONE))
                         continue
                     diffs += [row[r, j] - want[a][j] for j in range(mm)]
-        v = prove_all_zero(diffs, "rotate_result: out[label_a][r,j] == sum_k X[j,k] sum_b Rot[a,b] g[r,b,k] (rot=%s, target=%s, n=%d)" % (rot, m, n))
+        v = prove_all_zero(diffs, "rotate_result: out[label_a][r,j] == sum_k X[j,k] sum_b Rot[a,b] g[r,b,k], X = matrix of (eko.xgrid, card degree, target) (rot=%s, target=%s, n=%d)" % (rot, m, n))
         decide(log, v, key="rotate_result:value", replay=(MOD, "replay_apply", {"n": n, "what": "pdf", "rotate": bool(rot), "target": bool(m)}), sampler=_sampler)
-        if m:
-            v = prove_concrete(_dispatcher_ok(eko, target), "re-interpolation matrix requested from (eko.xgrid, card degree) for the target grid")
-            decide(log, v, key="rotate_result:dispatcher-args", replay=(MOD, "replay_apply", {"n": n, "what": "pdf", "rotate": bool(rot), "target": True}), sampler=_sampler)
         # input not modified
         v = prove_all_zero([grids[ep][idx] - before[ep][idx] for ep in EPS for idx in rnp.ndindex(before[ep].shape)], "rotate_result leaves its input grids unchanged")
         decide(log, v, key="rotate_result:pure", replay=(MOD, "replay_apply", {"n": n, "what": "pdf", "rotate": bool(rot), "target": bool(m)}), sampler=_sampler)
@@ -213,25 +250,14 @@ def case_rotate_result(log, n, m, rot, reps=1):
     log.path_stats(pm)
 
 
-def _dispatcher_ok(eko, target):
-    c = FakeDispatcher.calls
-    if len(c) != 2 or c[0][0] != "init" or c[1][0] != "get":
-        return False
-    a, kw = c[0][1], c[0][2]
-    names = ["xgrid", "polynomial_degree", "mode_N"]
-    got = dict(zip(names, a))
-    got.update(kw)
-    return (got.get("xgrid") is eko.xgrid and got.get("polynomial_degree") == eko.operator_card.configs.interpolation_polynomial_degree
-            and c[1][1] is target)
-
-
 class SymPDF:
     """lhapdf-like stand-in: flavour availability partly symbolic (z3 Bool, forks), values symbolic."""
 
-    def __init__(self, eko, has, F):
+    def __init__(self, eko, has, F, G=None):
         self.eko = eko
         self.has = has  # pid -> bool | ZBool
-        self.F = F  # pid -> list of SR (xf at the grid nodes)
+        self.F = F  # pid -> list of SR (xf at the grid nodes, at the initial scale)
+        self.G = G  # pid -> list of SR: slope in the scale argument, xf(pid, x_k, Q2) = F + G (Q2 - mu0^2)
         self.bad = []
         self.q2 = []
 
@@ -242,7 +268,9 @@ class SymPDF:
         self.q2.append(q2)
         for k, xx in enumerate(self.eko.xgrid.raw):
             if xx is x:
-                return self.F[pid][k]
+                if self.G is None:
+                    return self.F[pid][k]
+                return self.F[pid][k] + self.G[pid][k] * (q2 - self.eko.mu20)
         self.bad.append((pid, x))
         return SR.var("junk%d" % len(self.bad))
 
@@ -261,12 +289,14 @@ def case_apply_pdf(log, n, qed, rotate, m, sym_pids, rest_present):
         for pid in pids:
             has[pid] = ZBool(z3.Bool("has_%s" % str(pid).replace("-", "m"))) if pid in sym_pids else (rest_present if pid != 21 else True)
         F = {pid: [SR.var("F_%s_%d" % (str(pid).replace("-", "m"), k)) for k in range(n)] for pid in pids}
-        pdf = SymPDF(eko, has, F)
+        G = {pid: [SR.var("G_%s_%d" % (str(pid).replace("-", "m"), k)) for k in range(n)] for pid in pids}
+        pdf = SymPDF(eko, has, F, G)
         X = symarr("X", (m, n)) if m else None
-        FakeDispatcher.calls = []
-        FakeDispatcher.X = X
-        apply.interpolation = _NS(InterpolatorDispatcher=FakeDispatcher)
         target = [SR.var("t%d" % j) for j in range(m)] if m else None
+        FakeDispatcher.reset()
+        if m:
+            FakeDispatcher.register(eko, target, X)
+        apply.interpolation = _NS(InterpolatorDispatcher=FakeDispatcher)
         out, errs = apply.apply_pdf(eko, pdf, target, rotate)
         # which flavours are present on this path: read back the decisions from the path condition
         present = {}
@@ -285,7 +315,7 @@ def case_apply_pdf(log, n, qed, rotate, m, sym_pids, rest_present):
         decide(log, v, key="apply_pdf:labels", replay=(MOD, "replay_apply", rk), sampler=_sampler)
         v = prove_concrete(not pdf.bad, "xfxQ2 is evaluated at the nodes of eko.xgrid only")
         decide(log, v, key="apply_pdf:nodes", replay=(MOD, "replay_apply", rk), sampler=_sampler)
-        v = prove_all_zero([q - eko.mu20 for q in pdf.q2], "xfxQ2 is evaluated at the initial scale eko.mu20")
+        v = prove_all_zero([q - eko.mu20 for q in pdf.q2], "xfxQ2 is evaluated at the squared initial scale mu0^2 (= eko.mu20), mu0 symbolic")
         decide(log, v, key="apply_pdf:scale", replay=(MOD, "replay_apply", rk), sampler=_sampler)
         for kind, res in (("operator", out), ("error", errs)):
             diffs = []
@@ -302,17 +332,59 @@ def case_apply_pdf(log, n, qed, rotate, m, sym_pids, rest_present):
                     diffs += [row[j] - want[a][j] for j in range(mm)]
             v = prove_all_zero(diffs, "apply_pdf %s: out[label][j] == X.Rot.T.(xf/x) with missing flavours 0 (qed=%d rotate=%s target=%s n=%d)" % (kind, qed, rotate, m, n))
             decide(log, v, key="apply_pdf:%s" % kind, replay=(MOD, "replay_apply", rk), sampler=_sampler)
-        if m:
-            v = prove_concrete(len(FakeDispatcher.calls) == 4 and all(c[0] == "init" and dict(zip(["xgrid", "polynomial_degree", "mode_N"], c[1]), **c[2]).get("xgrid") is eko.xgrid
-                                                                       for c in FakeDispatcher.calls[0::2]) and all(c[1] is target for c in FakeDispatcher.calls[1::2]),
-                               "apply_pdf: re-interpolation from eko.xgrid (x space) to the target grid, for values and errors")
-            decide(log, v, key="apply_pdf:dispatcher-args", replay=(MOD, "replay_apply", rk), sampler=_sampler)
         log.twin("domain")
         log.collect_ctx()
 
     _r, pm = explore(run, max_paths=2 ** len(sym_pids) + 2)
     log.path_stats(pm)
     _validate(log, n)
+
+
+def case_two_apps(log, n, m, vary):
+    """Several applications in one process: EKOs that share the x nodes and the target grid but differ in the interpolation
+    polynomial degree or in the log/linear flag of the grid; every result must carry the interpolation matrix of its own
+    settings, whatever was applied before (A, B, then A again and B again)."""
+    apply = sym_module("ekobox.apply")
+    log.encode(apply.apply_pdf, apply.apply_pdf_flavor, apply.rotate_result)
+    from eko import basis_rotation as br
+
+    pids = list(br.flavor_basis_pids)
+    rk = {"n": 4, "vary": vary}
+
+    def run():
+        ekoA, xs = _mk_eko(n, with_mu=True, tag="A", log=True, degree=1)
+        ekoB, _ = _mk_eko(n, with_mu=True, xs=xs, tag="B", log=(vary != "log"), degree=2 if vary == "degree" else 1)
+        target = [SR.var("t%d" % j) for j in range(m)]
+        XA, XB = symarr("XA", (m, n)), symarr("XB", (m, n))
+        FakeDispatcher.reset()
+        FakeDispatcher.register(ekoA, target, XA)
+        FakeDispatcher.register(ekoB, target, XB)
+        apply.interpolation = _NS(InterpolatorDispatcher=FakeDispatcher)
+        F = {pid: [SR.var("F_%s_%d" % (str(pid).replace("-", "m"), k)) for k in range(n)] for pid in pids}
+        has = {pid: pid in (21, 1, -1, 2) for pid in pids}
+        inp = [[(F[pid][k] / xs[k]) if has[pid] else 0 for k in range(n)] for pid in pids]
+        for step, (eko, X, tag) in enumerate(((ekoA, XA, "A"), (ekoB, XB, "B"), (ekoA, XA, "A"), (ekoB, XB, "B"))):
+            out, errs = apply.apply_pdf(eko, SymPDF(eko, has, F), target, False)
+            for kind, res in (("operator", out), ("error", errs)):
+                diffs = []
+                for i, ep in enumerate(EPS):
+                    T = eko._ops[ep].operator if kind == "operator" else eko._ops[ep].error
+                    if T is None or ep not in res:
+                        continue
+                    want = _interp(X, _contract(T, inp, n), n, m)
+                    for a, lab in enumerate(pids):
+                        row = res[ep].get(lab)
+                        if row is None or tuple(rnp.shape(row)) != (m,):
+                            diffs.append(SR(QONE))
+                            continue
+                        diffs += [row[j] - want[a][j] for j in range(m)]
+                v = prove_all_zero(diffs, "application %d (EKO %s, differing in %s): %s interpolated with the matrix of this EKO's own (x grid, log flag, degree)" % (step + 1, tag, vary, kind))
+                decide(log, v, key="apply_pdf:interpolation-settings", replay=(MOD, "replay_two", rk), sampler=_sampler)
+        log.twin("domain")
+        log.collect_ctx()
+
+    _r, pm = explore(run)
+    log.path_stats(pm)
 
 
 def _validate(log, n):
@@ -339,7 +411,7 @@ def _sampler(rng):
 # ---------------------------------------------------------------------------
 # replay: REAL ekobox.apply on a REAL EKO written to /tmp; oracle = explicit python loops
 # ---------------------------------------------------------------------------
-def _real_eko(tmp, n, qed, ops):
+def _real_eko(tmp, n, qed, ops, mu0=2.0 ** 0.5, xs=None, log=True, degree=1, name="e.tar"):
     from eko import interpolation
     from eko.io.struct import EKO, Operator
     from ekobox import cards
@@ -347,12 +419,14 @@ def _real_eko(tmp, n, qed, ops):
     th = cards.example.theory()
     th.order = (1, qed)
     op = cards.example.operator()
-    xs = [0.2, 1.0] if n == 2 else [0.15, 0.5, 1.0] if n == 3 else list(rnp.linspace(0.1, 1.0, n))
-    op.xgrid = interpolation.XGrid(xs)
-    op.configs.interpolation_polynomial_degree = 1
-    op.init = (2.0 ** 0.5, 4)
+    if xs is None:
+        xs = [0.2, 1.0] if n == 2 else [0.15, 0.5, 1.0] if n == 3 else list(rnp.linspace(0.1, 1.0, n))
+    op.xgrid = interpolation.XGrid(xs, log=log)
+    op.configs.interpolation_polynomial_degree = degree
+    op.configs.interpolation_is_log = log
+    op.init = (mu0, 4)
     op.mugrid = [(10.0, 5), (3.0, 4)]
-    eko = EKO.create(tmp / "e.tar").load_cards(th, op).build()
+    eko = EKO.create(tmp / name).load_cards(th, op).build()
     for ep, (O, E) in zip(op.evolgrid, ops):
         eko[ep] = Operator(O, E)
     return eko, xs
@@ -380,7 +454,11 @@ def replay_apply(point, n, what, rotate=False, target=False, qed=0):
         ops.append((O, E))
     tmp = pathlib.Path(tempfile.mkdtemp(prefix="c43_", dir="/tmp"))
     try:
-        eko, xs = _real_eko(tmp, n, qed, ops)
+        mu0 = getv(point, "mu0", 2.0 ** 0.5)
+        if not (0.5 < mu0 < 50) or abs(mu0 - 1.0) < 1e-3:
+            mu0 = 2.0 ** 0.5
+        mu20 = mu0 * mu0
+        eko, xs = _real_eko(tmp, n, qed, ops, mu0=mu0)
         eps = [(100.0, 5), (9.0, 4)]
         if what == "shape":
             bad = 0
@@ -415,6 +493,7 @@ def replay_apply(point, n, what, rotate=False, target=False, qed=0):
             present[pid] = (str(v) == "True") if v is not None else bool(rng.integers(0, 2))
         present[21] = True
         F = {pid: [getv(point, "F_%s_%d" % (str(pid).replace("-", "m"), k), float(rng.normal())) for k in range(n)] for pid in pids}
+        G = {pid: [getv(point, "G_%s_%d" % (str(pid).replace("-", "m"), k), float(rng.normal())) for k in range(n)] for pid in pids}
         seen_q2 = []
 
         class PDF:
@@ -426,15 +505,16 @@ def replay_apply(point, n, what, rotate=False, target=False, qed=0):
                 k = min(range(n), key=lambda i: abs(xs[i] - x))
                 if abs(xs[k] - x) > 1e-12:
                     raise RuntimeError("off-grid x %r" % x)
-                return F[pid][k]
+                # a PDF that depends on the scale it is asked at: xf = F + G (Q2 - mu0^2)
+                return F[pid][k] + G[pid][k] * (q2 - mu20)
 
         tg = [0.3, 0.7, 0.9][: 2 if n == 2 else 3] if target else None
         try:
             out, errs = apply.apply_pdf(eko, PDF(), tg, rotate)
         except RuntimeError as e:
             return {"detail": "apply_pdf evaluated the PDF off the eko grid: %s" % e}
-        if any(abs(q - 2.0) > 1e-9 for q in seen_q2):
-            return {"detail": "xfxQ2 evaluated at scales %r instead of mu0^2 = 2.0" % sorted(set(seen_q2))[:3]}
+        if any(abs(q - mu20) > 1e-9 * mu20 for q in seen_q2):
+            return {"detail": "EKO with initial scale mu0 = %r: the input PDF is sampled at Q2 = %r instead of mu0^2 = %r" % (mu0, sorted(set(float(q) for q in seen_q2))[:3], mu20)}
         if rotate:
             M = br.rotate_flavor_to_unified_evolution if qed else br.rotate_flavor_to_evolution
             labels = list(br.unified_evol_basis_pids if qed else br.evol_basis_pids)
@@ -472,18 +552,78 @@ def replay_apply(point, n, what, rotate=False, target=False, qed=0):
         shutil.rmtree(tmp, ignore_errors=True)
 
 
+def replay_two(point, n, vary):
+    """two real EKOs in one process: same x nodes and target grid, different degree / log flag; A, B, A, B"""
+    import pathlib
+    import shutil
+    import tempfile
+
+    from eko import basis_rotation as br
+    from eko import interpolation
+    from ekobox import apply
+
+    pids = list(br.flavor_basis_pids)
+    rng = rnp.random.default_rng(int(getv(point, "seed", 7)))
+    xs = [0.1, 0.3, 0.6, 1.0]
+    tg = [0.2, 0.45, 0.8]
+    cfg = {"A": (True, 1), "B": ((vary != "log"), 2 if vary == "degree" else 1)}
+    tmp = pathlib.Path(tempfile.mkdtemp(prefix="c43two_", dir="/tmp"))
+    ekos = {}
+    try:
+        ops = {}
+        for tag, (lg, deg) in cfg.items():
+            ops[tag] = [(rng.normal(size=(NF, n, NF, n)), rng.normal(size=(NF, n, NF, n))), (rng.normal(size=(NF, n, NF, n)), None)]
+            ekos[tag], _ = _real_eko(tmp, n, 0, ops[tag], xs=xs, log=lg, degree=deg, name="e%s.tar" % tag)
+        F = {pid: [float(rng.normal()) for _ in range(n)] for pid in pids}
+
+        class PDF:
+            def hasFlavor(self, pid):
+                return pid in (21, 1, -1, 2)
+
+            def xfxQ2(self, pid, x, q2):
+                k = min(range(n), key=lambda i: abs(xs[i] - x))
+                return F[pid][k]
+
+        inp = rnp.array([[F[pid][k] / xs[k] if pid in (21, 1, -1, 2) else 0.0 for k in range(n)] for pid in pids])
+        eps = [(100.0, 5), (9.0, 4)]
+        for step, tag in enumerate("ABAB"):
+            lg, deg = cfg[tag]
+            out, errs = apply.apply_pdf(ekos[tag], PDF(), tg)
+            X = interpolation.InterpolatorDispatcher(interpolation.XGrid(xs, log=lg), deg, mode_N=False).get_interpolation(tg)
+            for i, ep in enumerate(eps):
+                for kind, T, res in (("operator", ops[tag][i][0], out[ep]), ("error", ops[tag][i][1], errs.get(ep))):
+                    if T is None:
+                        continue
+                    for a, pid in enumerate(pids):
+                        c = [sum(T[a, j, b, k] * inp[b][k] for b in range(NF) for k in range(n)) for j in range(n)]
+                        want = [sum(X[j][k] * c[k] for k in range(n)) for j in range(len(tg))]
+                        for j in range(len(tg)):
+                            if abs(res[pid][j] - want[j]) > 1e-8 * (1 + abs(want[j])):
+                                return {"detail": "application %d in this process (EKO %s: log=%s, degree=%d; the other EKO: log=%s, degree=%d; same x nodes %r and target grid %r): %s for pid %d at x=%r is %r, "
+                                        "interpolation with this EKO's own settings gives %r" % (step + 1, tag, lg, deg, cfg["B" if tag == "A" else "A"][0], cfg["B" if tag == "A" else "A"][1], xs, tg, kind, pid, tg[j], res[pid][j], want[j])}
+        return None
+    finally:
+        for e in ekos.values():
+            try:
+                e.close()
+            except Exception:  # noqa
+                pass
+        shutil.rmtree(tmp, ignore_errors=True)
+
+
 # ---------------------------------------------------------------------------
 def main():
     chk = H.Check("C43")
     thorough = H.tier() == "thorough"
     chk.bounds = ["flavour dimension 14 (fixed by the code), x grid of 2 points (quick) / 2-3 points (thorough), 2 evolution points (one stored with, one without error), 1-2 replicas",
-                  "operator, error, input values, x nodes (>0), initial scale symbolic reals",
+                  "operator, error, input values, x nodes (>0) symbolic reals; initial scale mu0 > 0 symbolic (so mu0 != mu0^2 in general) and the PDF depends on the scale it is asked at: xf(pid,x_k,Q2) = F + G (Q2 - mu0^2) with F, G symbolic",
+                  "several applications in one process: two EKOs with the same x nodes and target grid differing in polynomial degree (1/2) or in the log flag of the grid, applied A,B,A,B",
                   "flavour rotation: none, fully symbolic 14x14 (rotate_result), the two eko tables selected by apply_pdf (QCD / QED) ; re-interpolation matrix: none or fully symbolic (2-3 target points)",
                   "missing flavours: availability of 2 (quick) / 4 (thorough) PIDs at a time symbolic (z3 Bool, all combinations), the remaining PIDs all present or all absent; groups cover all 14 PIDs in the thorough tier (all 8 (QED, rotate, target) configurations with the first group, the other group/rest patterns with the configurations in turn)"]
     chk.out_of_claim = ["the entries of the re-interpolation matrix (exactness of InterpolatorDispatcher.get_interpolation is C34) and of the rotation tables (C31)",
                         "EKO.items() loading/unloading from disk (C37-C39); floating-point summation order of einsum(optimize='optimal')"]
-    chk.stubs = ["EKO -> in-memory stand-in exposing items(), xgrid(.raw, len), mu20, theory_card.order, operator_card.configs.interpolation_polynomial_degree",
-                 "eko.interpolation.InterpolatorDispatcher -> recorder returning a symbolic matrix X; its constructor/get_interpolation arguments are checked"]
+    chk.stubs = ["EKO -> in-memory stand-in exposing items(), xgrid(.raw, .log, len), mu20 == operator_card.mu20 == metadata.origin[0] == operator_card.init[0]^2, theory_card.order, operator_card.configs (degree, is_log)",
+                 "eko.interpolation.InterpolatorDispatcher -> content-addressed stand-in: one symbolic matrix per (x nodes, log flag, degree, target nodes), an unrelated fresh matrix for any other settings"]
     chk.assumptions = ["eko.basis_rotation.rotate_flavor_to_evolution / rotate_flavor_to_unified_evolution and the *_pids label tuples are the reference for 'rotation to the evolution basis'"]
     ns = (2, 3) if thorough else (2,)
     for n in ns:
@@ -494,6 +634,8 @@ def main():
         chk.case("rotate_result.n%d.rot+target" % n, case_rotate_result, n=n, m=n, rot="sym")
     from eko import basis_rotation as br
 
+    for vary in ("degree", "log"):
+        chk.case("two_apps.%s" % vary, case_two_apps, n=2, m=2, vary=vary)
     pids = list(br.flavor_basis_pids)
     if thorough:
         groups = [pids[0:4], pids[4:7] + [pids[8]], pids[9:12], pids[12:14] + [pids[1], pids[8]]]
